@@ -750,7 +750,7 @@ def asm_dispatch(ctx):
             for cnd in conds:
                 has_len = any(x[0] == 'len' or (x[0] == 'call' and x[1].split('::')[-1] == 'len') for x in expr_walk(cnd))
                 has_pos = any(x[0] == 'call' and x[1].split('::')[-1] == 'pos' for x in expr_walk(cnd))
-                has_cnt = any(x[0] == 'param' for x in expr_walk(cnd))
+                has_cnt = any(x[0] == 'param' and x[1] >= 2 for x in expr_walk(cnd))   # the bit count, not `self`
                 nc = norm_cmp(cnd, True) if cnd[0] in ('bin', 'un') else None
                 if has_len and has_pos and has_cnt and nc and nc[0] in ('Lt', 'Le'):
                     ok = cnd
@@ -762,3 +762,55 @@ def asm_dispatch(ctx):
                               'portable path reads zero and overruns; the two builds then fail differently (or one accepts)' % g.key)
     if n == 0:
         ctx.anchor_missing('dispatch to a clamping assembly path')
+
+
+
+@rule('ALIGNED-LEN-USE', ['C14'], configs=('def',), floor=5, thorough_configs=('nostd-opt',))
+def aligned_len_use(ctx):
+    """The over-aligned table type used with `optimization` rounds its length up to a whole cache line, the plain
+    `Vec` of the other builds does not. The length of such a table may therefore only be *checked* (compared),
+    never used as a value: a size derived from it (cyclic buffer size, mask, loop bound) differs between the
+    builds and with it the matches found and the bytes emitted."""
+    F = ctx.facts
+    aligned = [a for p, a in F.adts.items() if 'Aligned' in last_seg(p)]
+    if not aligned:
+        return ctx.anchor_missing('over-aligned table type')
+    n = 0
+    cnt = {}
+    for f in F.fns:
+        if f.self_adt and 'Aligned' in last_seg(f.self_adt):
+            continue   # the type's own methods
+        prov = None
+        for bi, t, c in f.calls():
+            if not (c.name == 'len' and c.self_adt and 'Aligned' in last_seg(c.self_adt)):
+                continue
+            n += 1
+            base = '%s:aligned-len' % (f.key if f.kind != 'closure' else f.npath)
+            cnt[base] = cnt.get(base, 0) + 1
+            key = base if cnt[base] == 1 else '%s#%d' % (base, cnt[base])
+            d = t['dest']['l']
+            bad = None
+            # every use of the result must be a comparison
+            for b2, blk in enumerate(f.blocks):
+                for st in blk['stmts']:
+                    if st['k'] != 'assign':
+                        continue
+                    rv = st['rv']
+                    uses = [k2 for k2 in ('o', 'a', 'b') if isinstance(rv.get(k2), dict) and (op_place(rv[k2]) or {}).get('l') == d]
+                    if rv['r'] == 'agg' and any((op_place(o) or {}).get('l') == d for o in rv['ops']):
+                        bad = (b2, 'stored into a value')
+                    if not uses:
+                        continue
+                    if rv['r'] == 'bin' and rv['op'] in ('Ge', 'Gt', 'Le', 'Lt', 'Eq', 'Ne'):
+                        continue
+                    bad = (b2, 'used in `%s`' % (rv.get('op') or rv['r']))
+                tt = blk['term']
+                if tt['k'] == 'call' and any((op_place(a) or {}).get('l') == d for a in tt['args']):
+                    bad = (b2, 'passed to %s' % ((callee_of(tt) or {}).get('name')))
+            if bad:
+                ctx.violation(key, f.loc(bad[0]), 'the rounded-up length of an over-aligned table is %s: the value differs from the plain-Vec build, so '
+                              'the two configurations compute different sizes from the same options' % bad[1])
+            else:
+                ctx.ok(key, f.loc(bi), 'length only compared (allocation check)')
+    if n == 0:
+        ctx.anchor_missing('length reads of the over-aligned table type')
